@@ -366,6 +366,16 @@ def _drive_ctl(sim, plan, known, hit):
                  "(first difference at offset %d)" % (i, len(acc), len(q), k))
   eng.on_step = check_prefix
 
+  def slow_down_handler(event):
+    # a ConnectionDown handler that takes a while (cleans up flows,
+    # topology...): other threads get to run while it does
+    if eng.me() is not None:
+      for _ in range(3):
+        eng.preempt()
+    sim.probes["slow_down_handler_ran"] += 1
+  world.nexus.addListenerByName("ConnectionDown", slow_down_handler,
+                                priority=100)
+
   class Sender(R.Task):
     def run(self_):
       while not state["go"]:
